@@ -78,6 +78,8 @@ def build(methods: list[dict], version_mismatch: bool = False):
     src_s, src_c, src_i = [], [], []
     for m in sorted(methods, key=lambda z: z["n"]):
         n = m["n"]
+        if n == "__describe__":     # built into the framework, not part of the generated protocol
+            continue
         if m["k"] == "unary":
             ret = "int"
         else:
@@ -130,7 +132,7 @@ def run_script(methods_by_name: dict, pair_factory, server_proto, impl, client_p
     """Run one client script (+ probe) over a fresh connection.  Returns obs, per-call ownership, liveness."""
     del server_log[:]
     ct, st = pair_factory()
-    server = RpcServer(server_proto, impl)
+    server = RpcServer(server_proto, impl, enable_describe=True)
     died: list = []
 
     def serve():
@@ -171,6 +173,20 @@ def run_script(methods_by_name: dict, pair_factory, server_proto, impl, client_p
                 state.update(raise_in_log=(call["ops"][:1] == ["L"]), quiet=False, nlogs=0, x=x, own=True, pending=[])
                 arg = str(x) if m["badp"] else x
                 try:
+                    if m["n"] == "__describe__":
+                        from vgi_rpc.introspect import introspect
+
+                        try:
+                            d = introspect(ct)
+                            names = {md.name for md in d.methods} if not isinstance(d.methods, dict) else set(d.methods)
+                            if names != {k for k, v in methods_by_name.items() if v["known"] and k != "__describe__"}:
+                                state["own"] = False
+                            obs.append(["result", 0])
+                        except RpcError as e:
+                            obs.append(["transport_error"] if e.error_type == "TransportError" else ["err", 0])
+                        except Exception as e:  # noqa: BLE001
+                            obs.append(["client_exception", type(e).__name__])
+                        continue
                     if m["k"] == "unary":
                         try:
                             r = getattr(px, m["n"])(x=arg)
